@@ -22,6 +22,7 @@ structure Dir where
   dpas : Q
   toldis : Q
   order4 : Bool := false   -- ECalcVario::ORDER4: ½((Δz)(Δz'))² instead of ½(Δz)(Δz')
+  breaks : List Q := []    -- irregular lag classes: class k = ]breaks[k], breaks[k+1]]  (empty: regular lags)
 
 def sq (a : Q) : Q := a * a
 def dotL : List Q → List Q → Q
@@ -63,10 +64,20 @@ def lagRankGo (d : Dir) (d2 : Q) : Nat → Nat → Option Nat
       if inTol ∧ k < d.npas then some k else none
     else lagRankGo d d2 fuel (k + 1)
 
-def lagRank (d : Dir) (d2 : Q) : Option Nat := lagRankGo d d2 (d.npas + 2) 0
+/-- irregular classes (`DirParam::getLagRank`, branch `!getFlagRegular()`), on the squared distance:
+the first class `k` with `breaks[k] < dist ≤ breaks[k+1]` -/
+def lagBreaksGo : List Q → Q → Nat → Option Nat
+  | b0 :: b1 :: rest, d2, k =>
+    if (b0 < 0 ∨ sq b0 < d2) ∧ (0 ≤ b1 ∧ d2 ≤ sq b1) then some k else lagBreaksGo (b1 :: rest) d2 (k + 1)
+  | _, _, _ => none
+
+def lagRank (d : Dir) (d2 : Q) : Option Nat :=
+  if d.breaks.length < 2 then lagRankGo d d2 (d.npas + 2) 0
+  else (lagBreaksGo d.breaks d2 0).filter (· < d.npas)
 
 /-- is the lag decision at a safe distance from every boundary (relative margin on squares)? -/
 def lagMarginOK (d : Dir) (d2 : Q) (m : Q) : Bool :=
+  if 2 ≤ d.breaks.length then d.breaks.all fun b => absQ (d2 - sq b) > m * (1 + sq b) else
   (List.range (d.npas + 2)).all fun k =>
     let b1 := sq (((k : Q) + 1/2) * d.dpas)
     let lo := ((k : Q) - d.toldis) * d.dpas
